@@ -28,6 +28,9 @@ func pickSpec(prefix string, id uint64) aSpec {
 		sp.nUsers, sp.nBids, sp.nEnd, sp.status = nd.Param("fUsers", 1), nd.Param("fBids", 2), 1, types.AuctionStatusStarted
 		sp.batch = f == 2
 		sp.nSched = nd.Pick(prefix+"nSched", 2)
+		if fs := nd.Param("fSched", -1); fs >= 0 {
+			sp.nSched = fs
+		}
 		if sp.batch {
 			if fe := nd.Param("fEnd", 0); fe > 0 {
 				sp.nEnd = fe
